@@ -103,19 +103,19 @@ fn run_rt_ug(e: &Sexp) -> Result<Sexp, String> { Ok(roundtrip(&conv::parse_user_
 fn cap_arities(e: Sexp) -> Sexp {
     match e {
         Sexp::S(t) => {
-            let b = t.as_bytes();
+            let cs: Vec<char> = t.chars().collect();
             let mut out = String::new();
             let mut i = 0;
-            while i < b.len() {
-                if b[i].is_ascii_digit() {
+            while i < cs.len() {
+                if cs[i].is_ascii_digit() {
                     let mut j = i;
-                    while j < b.len() && b[j].is_ascii_digit() { j += 1; }
-                    let run = &t[i..j];
+                    while j < cs.len() && cs[j].is_ascii_digit() { j += 1; }
+                    let run: String = cs[i..j].iter().collect();
                     // keep overflowing values (>= 2^64: a panic, no tree is built) and small ones
-                    if run.len() > 5 && run.len() < 21 { out.push_str(&run[..5]) } else { out.push_str(run) }
+                    if run.len() > 5 && run.len() < 21 { out.push_str(&run[..5]) } else { out.push_str(&run) }
                     i = j;
                 } else {
-                    out.push(b[i] as char);
+                    out.push(cs[i]);
                     i += 1;
                 }
             }
